@@ -63,7 +63,15 @@ Exec  == /\ phase = "E" /\ s.crash = ""
                                      !.lastOpTick = [p \in 1..NP |-> IF post.crash = "" /\ Successful(post, p) /\ ~Successful(s, p) THEN tick ELSE sim.lastOpTick[p]]]
          /\ phase' = "S" /\ tick' = tick + 1 /\ cmds' = [sus |-> <<>>, asg |-> <<>>] /\ last' = [last EXCEPT !.valid = FALSE]
          /\ UNCHANGED <<priv, g, wl, arr>>
-Next == Round \/ Exec
+\* optional (a field extKill of Cfg): somebody calls Container.kill(error) on a live container between two ticks; the policy sees
+\* the failed operators in its next round, the failure result one tick later
+KillFromOutside == /\ phase = "S" /\ s.crash = "" /\ tick < MaxTick /\ "extKill" \in DOMAIN Cfg /\ Cfg.extKill
+        /\ \E k \in 1..Cfg.np : \E cid \in Range(s.pools[k].active) :
+              /\ ~s.ctr[cid].done
+              /\ s' = ExternalKill(Cfg, wl, s, cid, "evicted")
+        /\ last' = [last EXCEPT !.valid = FALSE]
+        /\ UNCHANGED <<tick, phase, priv, cmds, g, wl, arr, sim>>
+Next == Round \/ Exec \/ KillFromOutside
 Spec == Init /\ [][Next]_vars
 
 (* ------------------------------------ properties ------------------------------------ *)
